@@ -40,6 +40,18 @@ def cases(tier, seed):
             else:
                 scn["pattern"] = [["solve"], ["iter", more]]
             scn["continued"] = True
+        elif u < 0.7:
+            # the global search goes on after a local refinement (explicit DoLocalRefinement, or Solve with refineSolution)
+            scn["obj"] = scenario.gen_objective(rng, scn["N"], ["sines", "cones", "wells", "needle", "linear", "outside"])
+            k1, k2 = int(rng.integers(3, 40)), int(rng.integers(10, 120))
+            scn["iters"] = k1 + k2 + 50
+            if rng.random() < 0.5:
+                scn["pattern"] = [["iter", k1], ["local", int(rng.integers(2, 40))], ["iter", k2]]
+            else:
+                scn["refine"] = True
+                scn["iters"] = k1
+                scn["pattern"] = [["solve"], ["iter", k2], ["local", 7], ["iter", 9]]
+            scn["refined_midway"] = True
         out.append(scn)
     return out
 
@@ -71,6 +83,9 @@ def run_case(scn):
         obs["M_not_comparable"] = 1
     obs.update(a["events"])
     obs["runs"] = 1
+    if scn.get("refined_midway"):
+        obs["runs_continued_after_refinement"] = 1
+        obs["local_evals"] = len([e for e in t.log if e["ph"] == "l"])
     if scn.get("continued"):
         obs["continued_beyond_first_budget"] = 1
         obs["max_trials_beyond_first_budget"] = max(0, len(xs) - scn["iters"])
@@ -88,7 +103,7 @@ def finalize(obs, tier, stats):
     need = 8000 if tier == "quick" else 500000
     if obs.get("audited", 0) < need:
         return "only %d trials audited (< %d)" % (obs.get("audited", 0), need), {}
-    missing = [k for k in ("M_grew", "zstar_improved", "ties", "boundary_chosen", "branch_pos", "branch_neg", "continued_beyond_first_budget") if not obs.get(k)]
+    missing = [k for k in ("M_grew", "zstar_improved", "ties", "boundary_chosen", "branch_pos", "branch_neg", "continued_beyond_first_budget", "runs_continued_after_refinement") if not obs.get(k)]
     if missing:
         return "mechanisms never observed: %s" % missing, {}
     return None, {}
